@@ -206,7 +206,9 @@ def tlc(module, cfg, env, name, timeout=3600, nworkers=None, extra=None, coverag
     e.update(env)
     # java is called directly (not through the `tlc` wrapper): -Xss must be on the command line, because the launcher sizes
     # the MAIN thread's stack from it and TLC computes initial states (and their invariants) on the main thread
-    cmd = ["java", "-Xss1g", "-Xmx" + mem, "-Dfile.encoding=UTF-8", "-XX:+UseParallelGC",
+    # (TLC unpacks its standard modules into a fresh directory under java.io.tmpdir at every start: keep that inside the run's own
+    # scratch directory, which is removed below, instead of leaving thousands of directories under /tmp)
+    cmd = ["java", "-Xss1g", "-Xmx" + mem, "-Dfile.encoding=UTF-8", "-Djava.io.tmpdir=" + meta, "-XX:+UseParallelGC",
            "-cp", "/opt/veriftools/tla/tla2tools.jar:/opt/veriftools/tla/CommunityModules-deps.jar", "tlc2.TLC",
            "-workers", str(nworkers or workers()), "-metadir", meta, "-cleanup", "-noGenerateSpecTE"]
     if coverage:
